@@ -121,7 +121,7 @@ theorem drain_noOverlap (mt : Metrics) (now : Nat) (q : List Msg) :
 
 /-! ### the invariant -/
 
-structure SInv (mt : Metrics) (w : World Srv) : Prop where
+structure SInv0 (mt : Metrics) (w : World Srv) : Prop where
   busy : ∀ f, w.chan.serving = some f →
     w.pend = [f] ∧ w.clock ≤ f ∧
       ∃ pre s m, w.started = pre ++ [(s, m)] ∧ f = s + m.tx ∧ 0 < m.tx
@@ -133,7 +133,7 @@ structure SInv (mt : Metrics) (w : World Srv) : Prop where
   exits : w.exits = w.started.map (exitFor mt)
   noOverlap : w.started.Pairwise (fun a b => a.1 + a.2.tx ≤ b.1)
 
-theorem init_SInv (mt : Metrics) : SInv mt (World.init spec) := by
+theorem init_SInv0 (mt : Metrics) : SInv0 mt (World.init spec) := by
   refine ⟨?_, ?_, ?_, ?_, ?_, ?_, ?_, ?_⟩ <;> simp [World.init, spec, ChanSrv.init]
 
 theorem startedOf_single (now : Nat) (m : Msg) (f : Fate) :
@@ -156,15 +156,18 @@ theorem popMin_single (f : Nat) : popMin [f] = some (f, []) := by
   simp [popMin, minTime]
 
 /-- an offer preserves the invariant -/
-theorem offer_SInv (mt : Metrics) {w w' : World Srv} (hI : SInv mt w) (t : Nat) (m : Msg)
-    (h : step spec mt w (.offer t m) = .ok w') : SInv mt w' := by
+theorem offer_SInv0 (mt : Metrics) {w w' : World Srv} (hI : SInv0 mt w) (t : Nat) (m : Msg)
+    (h : step spec mt w (.offer t m) = .ok w') : SInv0 mt w' := by
   simp only [step] at h
   by_cases h1 : t < w.clock
   · simp [h1] at h
   simp only [h1, if_false] at h
   by_cases h2 : w.pend.any (· < t) = true
   · simp [h2] at h
-  simp only [h2, Bool.false_eq_true, if_false, Except.ok.injEq] at h
+  simp only [h2, Bool.false_eq_true, if_false] at h
+  by_cases h3 : w.kq.any (·.time < t) = true
+  · simp [h3] at h
+  simp only [h3, Bool.false_eq_true, if_false, Except.ok.injEq] at h
   have hpend := any_lt_false h2
   have hclock : w.clock ≤ t := by omega
   obtain ⟨hbusy, hidle, hhor, hsl, hperm, hfifo, hex, hno⟩ := hI
@@ -310,7 +313,7 @@ theorem offer_SInv (mt : Metrics) {w w' : World Srv} (hI : SInv mt w) (t : Nat) 
         exact hhor' a ha
     · have hoff : spec.offer mt w.chan t m =
           ({ w.chan with serving := some (t + m.tx) },
-           [.unbusyAt (t + m.tx), exitOf mt t m], .started) := by
+           [exitOf mt t m, .unbusyAt (t + m.tx)], .started) := by
         simp [spec, ChanSrv.offer, hs, htx]
       simp only [hoff, advance, unbusyTimes, exitsOf, exitOf, startedOf_single, withFate_single]
       refine ⟨?_, ?_, ?_, ?_, ?_, ?_, ?_, ?_⟩
@@ -348,5 +351,63 @@ theorem offer_SInv (mt : Metrics) {w w' : World Srv} (hI : SInv mt w) (t : Nat) 
         simp only [List.mem_singleton] at hb
         subst hb
         exact hhor' a ha
+
+/-- dispatching an exit event preserves the invariant (it only moves the clock, not past the
+    pending unbusy notification) -/
+theorem deliver_SInv0 (mt : Metrics) {w w' : World Srv} (hI : SInv0 mt w)
+    (h : step spec mt w .deliver = .ok w') :
+    ∃ e, kmin w.kq = some (.exit e) ∧ w.clock ≤ e.time ∧
+      w' = { w with clock := e.time, kq := w.kq.erase (.exit e), delivered := w.delivered ++ [e.id] } ∧
+      (∀ f, w.chan.serving = some f → e.time ≤ f → SInv0 mt w') ∧
+      (w.chan.serving = none → SInv0 mt w') := by
+  simp only [step] at h
+  cases hkm : kmin w.kq with
+  | none => simp [hkm] at h
+  | some ev =>
+    cases ev with
+    | unbusy u => simp [hkm] at h
+    | exit e =>
+      simp only [hkm] at h
+      by_cases h1 : e.time < w.clock
+      · simp [h1] at h
+      simp only [h1, if_false, Except.ok.injEq] at h
+      have hce : w.clock ≤ e.time := by omega
+      refine ⟨e, rfl, hce, h.symm, ?_, ?_⟩
+      · intro f hs hef
+        subst h
+        obtain ⟨hbusy, hidle, hhor, hsl, hperm, hfifo, hex, hno⟩ := hI
+        refine ⟨?_, ?_, ?_, ?_, hperm, hfifo, hex, hno⟩
+        · intro f' hf'
+          have hf'' : w.chan.serving = some f' := hf'
+          obtain ⟨a, b, c⟩ := hbusy f' hf''
+          rw [hs] at hf''; cases hf''
+          exact ⟨a, hef, c⟩
+        · intro hn; exact hidle hn
+        · intro p hp
+          have := hhor p hp
+          rw [hs] at this ⊢
+          exact this
+        · intro p hp
+          have := hsl p hp
+          show p.1 ≤ e.time
+          omega
+      · intro hs
+        subst h
+        obtain ⟨hbusy, hidle, hhor, hsl, hperm, hfifo, hex, hno⟩ := hI
+        refine ⟨?_, ?_, ?_, ?_, hperm, hfifo, hex, hno⟩
+        · intro f' hf'
+          have hf'' : w.chan.serving = some f' := hf'
+          rw [hs] at hf''; cases hf''
+        · intro hn; exact hidle hn
+        · intro p hp
+          have := hhor p hp
+          rw [hs] at this ⊢
+          simp only [Option.getD_none] at this ⊢
+          show p.1 + p.2.tx ≤ e.time
+          omega
+        · intro p hp
+          have := hsl p hp
+          show p.1 ≤ e.time
+          omega
 
 end ChanInv
